@@ -138,6 +138,27 @@ CHECKS = {
                 note='The lookup and graph clauses are pure functions of their input (evaluated by inspection inside the scenarios); '
                      'the hub-through-wires, end-to-end and several-flows-per-class clauses are the simulation targets.',
                 ref='4/C18 and 5'),
+    'C16': dict(engine='TCP', what='arrival permutations/duplicates/gaps at the sink; finite drop / duplicate / delay (overtaking) '
+                'scripts by transmission index on the data and the ACK direction between a real sender and a real sink; '
+                'Reno and CUBIC; initial RTT estimates, windows, 1-40 segments',
+                text='Seeded exploration with fault injection: every ACK the real TCPSink emits must equal the contiguous prefix of a '
+                     'reference byte set; after the finite fault script the real sender must complete the transfer (sink holds '
+                     '[0,size), acknowledged mark at the end) by quiescence or a generous simulated-time bound, must not raise, '
+                     'must not transmit after completion, and on a fault-free path with RTT below its RTO at every transmission '
+                     'must send no segment twice.',
+                note='FaultLink is the only network the two ends see (harness stub); flow sizes are multiples of the MSS; runs that '
+                     'hit the step cap before the time bound are counted inconclusive.',
+                ref='4/C16'),
+    'C17': dict(engine='TCP', what='scripted ACK histories at a real sender: new ACKs advancing 1..m segments with arbitrary RTT samples, '
+                'duplicate-ACK runs of length 1..6, silences that let retransmission timers expire; Reno from random initial '
+                'cwnd/ssthresh, CUBIC from its defaults',
+                text='Seeded exploration against a textbook reference machine (slow start / congestion avoidance / fast retransmit at '
+                     'the 3rd duplicate / inflation / deflation on the next new ACK / timeout -> 1 MSS and RTO doubling / '
+                     'Jacobson-Karels) stepped with the same observed history and compared after every event; every new segment is '
+                     'checked against the send guard with the sender\'s state at that moment.',
+                note='ssthresh after a timeout is unspecified (adopted from the observation); CUBIC avoidance is checked by its '
+                     'consequences only.',
+                ref='4/C17'),
 }
 
 ENGINES = [
